@@ -165,6 +165,14 @@ fn one_input(ctx: &mut Ctx, index: u64, bytes: &[u8], class: &str, r: &mut Rng, 
                 .and_then(|t| rosu_map::from_str::<Beatmap>(s).map(|m| (t, Some(cmp::full(&m)))))
                 .map_err(|e| format!("{e:?}"));
             check(ctx, "from_str".into(), res);
+            // the other public string / byte entry points of the full decoder
+            ctx.count("inherent_entry_points_compared");
+            let res = s.parse::<Beatmap>().map(|m| (t0.clone(), Some(cmp::full(&m)))).map_err(|e| format!("{e:?}"));
+            check(ctx, "str::parse::<Beatmap>()".into(), res);
+        }
+        {
+            let res = Beatmap::from_bytes(bytes).map(|m| (t0.clone(), Some(cmp::full(&m)))).map_err(|e| format!("{e:?}"));
+            check(ctx, "Beatmap::from_bytes".into(), res);
         }
         if index % 8 == 0 {
             // from_path on a scratch file next to the evidence output
@@ -176,6 +184,8 @@ fn one_input(ctx: &mut Ctx, index: u64, bytes: &[u8], class: &str, r: &mut Rng, 
                     .and_then(|t| rosu_map::from_path::<Beatmap>(&path).map(|m| (t, Some(cmp::full(&m)))))
                     .map_err(|e| format!("{e:?}"));
                 check(ctx, "from_path".into(), res);
+                let res = Beatmap::from_path(&path).map(|m| (t0.clone(), Some(cmp::full(&m)))).map_err(|e| format!("{e:?}"));
+                check(ctx, "Beatmap::from_path".into(), res);
                 let _ = std::fs::remove_file(&path);
             }
         }
